@@ -10,8 +10,10 @@ import (
 	"encoding/json"
 	"fmt"
 	"net/http"
+	"runtime"
 	"sort"
 	"sync"
+	"sync/atomic"
 	"testing"
 	"time"
 
@@ -32,15 +34,18 @@ type c07Msg struct {
 }
 
 type c07Case struct {
-	WSLatencyUs int      `json:"ws_latency_us"`
-	Msgs        []c07Msg `json:"msgs"`
-	BurstSwap   string   `json:"burst_swap"` // none | server | client | both: 4 messages fired from the yield hook right before the transport swap
-	BurstDone   bool     `json:"burst_done"` // 4 messages fired from the client's UpgradeDone callback
-	Fault       string   `json:"fault"`      // none | cut-c2s | cut-s2c | blackhole
-	FaultAt     int      `json:"fault_at"`   // byte offset on the WebSocket link at which it is cut
-	ParkSwap    bool     `json:"park_swap"`  // park the swapping goroutine (virtual 1 ns) so that everything else runs first
-	ParkClientMs int     `json:"park_client_ms"` // hold the client's swap back that long (as a Send still in flight on polling does); the client's UpgradeTimeout is then 2 s, the server's 5 s
-	BigAfter    int      `json:"big_after"`  // size of one extra message in each direction after the upgrade (0 = none)
+	WSLatencyUs  int      `json:"ws_latency_us"`
+	Msgs         []c07Msg `json:"msgs"`
+	BurstSwap    string   `json:"burst_swap"`     // none | server | client | both: 4 messages fired from the yield hook right before the transport swap
+	BurstDone    bool     `json:"burst_done"`     // 4 messages fired from the client's UpgradeDone callback
+	Fault        string   `json:"fault"`          // none | cut-c2s | cut-s2c | blackhole
+	FaultAt      int      `json:"fault_at"`       // byte offset on the WebSocket link at which it is cut
+	ParkSwap     bool     `json:"park_swap"`      // park the swapping goroutine (virtual 1 ns) so that everything else runs first
+	ParkClientMs int      `json:"park_client_ms"` // hold the client's swap back that long (as a Send still in flight on polling does); the client's UpgradeTimeout is then 2 s, the server's 5 s
+	BigAfter     int      `json:"big_after"`      // size of one extra message in each direction after the upgrade (0 = none)
+	// forced schedule: the first server Send that reaches the polling transport once the server's swap is imminent is held at the transport's entry
+	// for that many scheduler yields (no virtual time passes), and the swapping goroutine goes on only when that Send is there (0 = off)
+	ParkSendSpins int `json:"park_send_spins"`
 }
 
 func (c c07Case) class() string {
@@ -107,9 +112,22 @@ func evalC07(c c07Case) (f *Failure, nontrivial bool) {
 		return string(data)
 	}
 	swapSeen := map[string]bool{}
+	var sendParked atomic.Bool
+	var sendsAfterSwapImminent atomic.Int64
 	hooks := hookSet{point: func(site string) {
 		var side string
 		switch site {
+		case "polling.ServerTransport.Send:enter":
+			mu.Lock()
+			imminent := swapSeen["server"]
+			mu.Unlock()
+			if c.ParkSendSpins > 0 && imminent && sendsAfterSwapImminent.Add(1) == 1 {
+				sendParked.Store(true)
+				for i := 0; i < c.ParkSendSpins; i++ {
+					runtime.Gosched()
+				}
+			}
+			return
 		case "eio.serverSocket.upgradeTo:before-swap":
 			side = "server"
 		case "eio.clientSocket.finishUpgradeTo:before-swap":
@@ -136,7 +154,11 @@ func evalC07(c c07Case) (f *Failure, nontrivial bool) {
 				go send(dir, i%2 == 1, "swap")
 			}
 		}
-		if c.ParkSwap {
+		if side == "server" && c.ParkSendSpins > 0 && (c.BurstSwap == "server" || c.BurstSwap == "both") {
+			for i := 0; i < 50000 && !sendParked.Load(); i++ {
+				runtime.Gosched()
+			}
+		} else if c.ParkSwap {
 			time.Sleep(time.Nanosecond)
 		}
 		if side == "client" && c.ParkClientMs > 0 {
@@ -361,6 +383,9 @@ func genC07Case(t *rapid.T) c07Case {
 	if rapid.IntRange(0, 5).Draw(t, "parkClient") == 0 {
 		c.ParkClientMs = 3000
 	}
+	if (c.BurstSwap == "server" || c.BurstSwap == "both") && rapid.Bool().Draw(t, "parkSend") {
+		c.ParkSendSpins = rapid.SampledFrom([]int{2000, 20000}).Draw(t, "parkSendSpins")
+	}
 	if rapid.IntRange(0, 3).Draw(t, "faulty") == 0 {
 		c.Fault = rapid.SampledFrom([]string{"cut-c2s", "cut-s2c", "blackhole"}).Draw(t, "fault")
 		c.FaultAt = rapid.IntRange(0, 400).Draw(t, "faultAt")
@@ -369,7 +394,7 @@ func genC07Case(t *rapid.T) c07Case {
 		// A disturbed WebSocket makes the library wait for the WebSocket library's 5 s close timeouts with the transport lock held;
 		// concurrent Sends then wait for that lock, which freezes virtual time (DESIGN.md §2.2). Disturbed upgrades are therefore
 		// exercised without traffic inside the window; the traffic follows at 15 s.
-		c.BurstSwap, c.BurstDone, c.ParkSwap, c.ParkClientMs = "none", false, false, 0
+		c.BurstSwap, c.BurstDone, c.ParkSwap, c.ParkClientMs, c.ParkSendSpins = "none", false, false, 0, 0
 		return c
 	}
 	horizon := 4*c.WSLatencyUs + 3000
